@@ -31,13 +31,14 @@ instance : ToString Sx := ⟨toStr⟩
 
 /-- Tokenise: parentheses are their own tokens, blanks separate. -/
 def tokens (s : String) : List String :=
+  let flush (cur : List Char) (acc : List String) : List String :=
+    if cur.isEmpty then acc else (String.ofList cur.reverse) :: acc
   let rec go (cs : List Char) (cur : List Char) (acc : List String) : List String :=
-    let flush := if cur.isEmpty then acc else (String.ofList cur.reverse) :: acc
     match cs with
-    | [] => flush.reverse
+    | [] => (flush cur acc).reverse
     | c :: rest =>
-      if c == '(' || c == ')' then go rest [] (String.singleton c :: flush)
-      else if c == ' ' || c == '\t' || c == '\n' || c == '\r' then go rest [] flush
+      if c == '(' || c == ')' then go rest [] (String.singleton c :: flush cur acc)
+      else if c == ' ' || c == '\t' || c == '\n' || c == '\r' then go rest [] (flush cur acc)
       else go rest (c :: cur) acc
   go s.toList [] []
 
